@@ -836,6 +836,16 @@ def main():
             chk.violation("shared:" + key, "C11 [several threads on one connection] " + msg, rep)
     for cfgname in (("2", "2bg") if not chk.thorough else ("2", "2bg", "3", "3bg", "1bg")):
         svc.explore_eof(chk, cfgname, on_bad, 60 if not chk.thorough else 600)
+    if svc.handoff_repaired():
+        # ... next to threads that only serve (serve_threaded's loop), and with replies that carry references, so that the stream
+        # can end while a thread is inside the INSPECT round trip it makes from within a dispatch
+        from harness.drivers import serve_nested as sn
+        svc.explore_eof(chk, "2p", on_bad, 40 if not chk.thorough else 400)
+        for name in (("n2a",) if not chk.thorough else ("n2a", "n2ab", "n3a")):
+            ncfg = sn.NCONFIGS[name]
+            svc.explore_eof(chk, name, on_bad, 40 if not chk.thorough else 400, configs=sn.NCONFIGS,
+                            fixture=sn.fixture_for(ncfg["nested"]),
+                            want=lambda r, n=ncfg["nested"]: ("ref:vmod.C<%s>" % n[r]) if r in n else svc.tag(r))
     for i in range(0, len(traces), 1500):
         validate(chk, traces[i:i + 1500], "fault runs %d.." % (nval + i))
     chk.assumptions += [
